@@ -131,6 +131,16 @@ def Effect.touches : Effect → Bool
   | .updateScore => true
   | _ => false
 
+/-- what the TxManager holds about one txid, as far as one connection can see it: when it was last
+    requested (clock reading, ms), whether the tx has arrived, and whether this node is in the
+    `NodeIDs` list (it announced the tx while another request was outstanding). -/
+structure TxEntry where
+  id : Bytes
+  requested : Nat
+  received : Bool
+  queued : Bool
+deriving DecidableEq, Repr
+
 structure State where
   table : Table := preTable
   -- handshake goroutine locals and life
@@ -153,7 +163,9 @@ structure State where
   blockReq : Option Bytes := none   -- n.blockRequest (hash)
   blockHandler : Bool := false      -- n.blockHandler != nil
   pingNonce : Nat := 0
-  txSeen : List Bytes := []         -- TxManager: txids already requested or received
+  txs : List TxEntry := []          -- TxManager contents
+  txTimeout : Nat := 3600000        -- TxManager request timeout (ms)
+  now : Nat := 0                    -- clock reading (ms) for the message being handled: an input
 deriving Repr
 
 /-- `sendVerifyInitiation`. -/
@@ -187,6 +199,32 @@ def accept (s : State) : State × List Effect × Bool :=
   let s1 := { s with table := install Facts.acceptHandlers s.hasTx s.table, ready := true, verified := true }
   if s1.verifyOnly then ({ s1 with stopped := true }, [.accepted, .stop], true)
   else (s1, [.accepted, .send "sendheaders" 0, .send "getaddr" 0, .send "getheaders" 0, .peersGet, .send "addr" 0], false)
+
+/-- `TxManager.AddTxID` for an announced txid: new → request; received → no; requested less than
+    the timeout ago → remember this node, no; request timed out → request again. -/
+def txAnnounce (s : State) (h : Bytes) : State × Bool :=
+  match s.txs.find? (fun t => t.id == h) with
+  | none => ({ s with txs := { id := h, requested := s.now, received := false, queued := false } :: s.txs }, true)
+  | some t =>
+    if t.received then (s, false)
+    else if s.now - t.requested < s.txTimeout then
+      ({ s with txs := s.txs.map fun x => if x.id == h then { x with queued := true } else x }, false)
+    else
+      ({ s with txs := s.txs.map fun x => if x.id == h then { x with requested := s.now, queued := false } else x }, true)
+
+/-- `TxManager.AddTx`. -/
+def txDeliver (s : State) (h : Bytes) : State :=
+  match s.txs.find? (fun t => t.id == h) with
+  | none => { s with txs := { id := h, requested := s.now, received := true, queued := false } :: s.txs }
+  | some _ => { s with txs := s.txs.map fun x => if x.id == h then { x with received := true } else x }
+
+/-- `TxManager.GetTxRequests` for this node followed by `BitcoinNode.RequestTxs` (what
+    `NodeManager.RequestTxs` does every 5 s): every tx not received, announced by this node while
+    another request was outstanding, whose request timed out, is requested again. -/
+def txPoll (s : State) : State × Nat :=
+  let due := fun (x : TxEntry) => !x.received && x.queued && decide (s.txTimeout ≤ s.now - x.requested)
+  ({ s with txs := s.txs.map fun x => if due x then { x with requested := s.now, queued := false } else x },
+   (s.txs.filter due).length)
 
 /-- `RequestBlock` (called by the block manager on a node that `nextNode` returned). -/
 def requestBlock (s : State) (hash : Bytes) : State × List Effect :=
